@@ -19,6 +19,9 @@ def check_case(rep, case, name):
     secs = {'Tabulation': tabl, 'EAM-Embed': list(embed), 'EAM-Density': list(dens), 'Pair': list(pairs), 'Potential-Form': list(forms)}
     tables = [('tab1', [('x', '0 1 2 3 4'), ('y', '1 2 3 4 5')])]
     dup_desc = None
+    # vacuity guard: the model is accepted before its entry is duplicated (else "rejected" below would say nothing)
+    try: tabulate_text(render([], [(n, e) for n, e in secs.items()] + [('Table-Form:' + n, e) for n, e in tables]))
+    except Exception as e: rep.dev(name, case, 'the model without the duplicate is rejected: %s: %s' % (type(e).__name__, str(e)[:80]), 'accepted'); return
     if what in ('pair', 'embed', 'density', 'fsdensity', 'form'):
         sec = {'pair': 'Pair', 'embed': 'EAM-Embed', 'density': 'EAM-Density', 'fsdensity': 'EAM-Density', 'form': 'Potential-Form'}[what]
         k, v = rng.choice(secs[sec])
